@@ -162,7 +162,7 @@ func C06_Jobs() []string {
 		ks := string(rune('0'+k/10)) + string(rune('0'+k%10))
 		out = append(out, "struct/"+ks, "prim/"+ks, "slice/"+ks, "ptr/"+ks)
 	}
-	out = append(out, "json", "json-ptr", "env", "longkey", "validate-nil-ptrs")
+	out = append(out, "json", "json-ptr", "env", "longkey", "validate-nil-ptrs", "two-dest-types", "long-slices")
 	return out
 }
 func C06_Covers() []string { return []string{"returned"} }
@@ -260,6 +260,48 @@ func C06_Run(job string) {
 		v.Assert(errs == nil && d.AVeryLongFieldNameThatExceedsThirtyTwoBytes == x, "C06:long-key-value")
 		errs = z.Struct(z.Schema{"aVeryLongFieldNameThatExceedsThirtyTwoBytes": z.Int()}).Validate(&d)
 		v.Assert(errs == nil, "C06:long-key-validate")
+	case "two-dest-types":
+		// one schema value, destination types with different layouts, in both orders
+		type T1 struct {
+			A int
+			B string
+			C []int
+		}
+		type T2 struct {
+			C []int
+			B string
+			X float64
+			A int
+		}
+		s := z.Struct(z.Schema{"a": z.Int(), "b": z.String(), "c": z.Slice(z.Int())})
+		in := map[string]any{"a": v.Int("n"), "b": "s", "c": []any{1}}
+		var d1 T1
+		var d2 T2
+		if v.Choice("order", 2) == 0 {
+			s.Parse(in, &d1)
+			s.Parse(in, &d2)
+			s.Validate(&d1)
+			s.Validate(&d2)
+		} else {
+			s.Validate(&d2)
+			s.Parse(in, &d2)
+			s.Parse(in, &d1)
+			s.Validate(&d1)
+		}
+	case "long-slices":
+		// inputs far beyond the sizes used elsewhere
+		n := []int{9, 10, 11, 63, 64, 65, 66, 127, 128, 129, 300}[v.Choice("len", 11)]
+		in := make([]any, n)
+		for i := range in {
+			in[i] = i
+		}
+		var d []int
+		errs := z.Slice(z.Int().LT(5)).Parse(in, &d)
+		v.Assert(len(d) == n && (n <= 5 || len(errs) == n-5+1), "C06:long-slice-result")
+		errs = z.Slice(z.Int().LT(5)).Validate(&d)
+		v.Assert(n <= 5 || len(errs) == n-5+1+v.B2I(false), "C06:long-slice-result")
+		var ds struct{ L [][]int }
+		z.Struct(z.Schema{"l": z.Slice(z.Slice(z.Int()))}).Parse(map[string]any{"l": []any{in, in}}, &ds)
 	case "validate-nil-ptrs":
 		var d c06Dest
 		c06Schema().Validate(&d)
